@@ -142,3 +142,146 @@ theorem scaled_display_exact (n : Int) (h : n.natAbs < 2 ^ 38) :
     omega
 
 end Ntrip.F64
+
+namespace Ntrip.F64
+
+theorem le_of_bitLen {a : Nat} (h : 1 ≤ bitLen a) : 2 ^ (bitLen a - 1) ≤ a := by
+  unfold bitLen at h ⊢
+  split at h
+  · omega
+  · rename_i h0
+    rw [if_neg h0]
+    simpa using Nat.log2_self_le h0
+
+/-- **Rounding to 53 bits is accurate to half a unit in the last place**: the rounded value
+    differs from the exact one by at most `2^-53` of its magnitude. -/
+theorem round53_err (A : Int) :
+    2 ^ 53 * (rhe A (2 ^ (bitLen A.natAbs - 53)) * 2 ^ (bitLen A.natAbs - 53) - A) ≤ (A.natAbs : Int) ∧
+    -(A.natAbs : Int) ≤ 2 ^ 53 * (rhe A (2 ^ (bitLen A.natAbs - 53)) * 2 ^ (bitLen A.natAbs - 53) - A) := by
+  generalize hk : bitLen A.natAbs - 53 = k
+  by_cases h0 : k = 0
+  · subst h0
+    simp only [Int.pow_zero, rhe_one, Int.mul_one, Int.sub_self, Int.mul_zero]
+    omega
+  · have hP : (0 : Int) < 2 ^ k := Int.pow_pos (by omega)
+    obtain ⟨r1, r2⟩ := rhe_err A (2 ^ k) hP
+    have hb : 1 ≤ bitLen A.natAbs := by omega
+    have hlow := le_of_bitLen hb
+    have hsplit : bitLen A.natAbs - 1 = 52 + k := by omega
+    rw [hsplit, Nat.pow_add] at hlow
+    have hlow' : (2 : Int) ^ 52 * 2 ^ k ≤ (A.natAbs : Int) := by exact_mod_cast hlow
+    generalize rhe A (2 ^ k) * 2 ^ k = XP at r1 r2 ⊢
+    generalize (2 : Int) ^ k = P at hP r1 r2 hlow'
+    omega
+
+end Ntrip.F64
+
+namespace Ntrip.F64
+
+/-- **Range in metres is accurate to two units in the last place.**  For every aggregate
+    (scaled) range `S`, the binary64 computation `float64(S) / 2^29 * OneLightMillisecond` — an
+    exact conversion, an exact division by a power of two, the constant 299792.458 rounded to
+    binary64 and one rounded multiplication — differs from the formula `S / 2^29 × 299792.458`
+    by at most `2^-51` of its value.  (Both sides are multiplied by `1000 · 2^63` to state this
+    over the integers.) -/
+theorem range_metres_accuracy (S : Nat) (hS : S < 2 ^ 41) :
+    let R := mul (scale2 (ofInt S) (-29)) cLightMs
+    2 ^ 51 * (1000 * R.scaled 63 - S * 299792458 * 2 ^ 34) ≤ S * 299792458 * 2 ^ 34 ∧
+    -((S : Int) * 299792458 * 2 ^ 34) ≤ 2 ^ 51 * (1000 * R.scaled 63 - S * 299792458 * 2 ^ 34) := by
+  intro R
+  have hof : ofInt (S : Int) = { m := S, e := 0 } :=
+    ofInt_exact S (by rw [Int.natAbs_natCast]; exact Nat.lt_of_lt_of_le hS (Nat.pow_le_pow_right (by omega) (by omega)))
+  have hR : R = round53 { m := (S : Int) * 5150395210789814, e := -29 + -34 } := by
+    show mul (scale2 (ofInt S) (-29)) cLightMs = _
+    rw [hof]; rfl
+  obtain ⟨r1, r2⟩ := round53_err ((S : Int) * 5150395210789814)
+  have hA : (((S : Int) * 5150395210789814).natAbs : Int) = (S : Int) * 5150395210789814 := by
+    rw [Int.natAbs_mul]; simp
+  rw [hA] at r1 r2
+  have hscaled : R.scaled 63 = rhe ((S : Int) * 5150395210789814) (2 ^ (bitLen ((S : Int) * 5150395210789814).natAbs - 53)) *
+      2 ^ (bitLen ((S : Int) * 5150395210789814).natAbs - 53) := by
+    rw [hR]; unfold round53 Val.scaled
+    simp only []
+    congr 2
+    omega
+  rw [hscaled]
+  generalize rhe ((S : Int) * 5150395210789814) (2 ^ (bitLen ((S : Int) * 5150395210789814).natAbs - 53)) *
+      2 ^ (bitLen ((S : Int) * 5150395210789814).natAbs - 53) = XP at r1 r2 ⊢
+  have hS0 : (0 : Int) ≤ S := Int.natCast_nonneg S
+  constructor <;> omega
+
+end Ntrip.F64
+
+namespace Ntrip.F64
+
+/-- **The phase range rate in m/s is correctly rounded**: `float64(A) / 10000` differs from the
+    exact quotient `A / 10000` by at most `2^-53` of its magnitude (stated ×10000·2^78 over the integers). -/
+theorem rate_accuracy (A : Int) (hA : A.natAbs < 2 ^ 53) :
+    let R := divConst (ofInt A) 10000
+    2 ^ 53 * (10000 * R.scaled 78 - A * 2 ^ 78) ≤ (A.natAbs : Int) * 2 ^ 78 ∧
+    -((A.natAbs : Int) * 2 ^ 78) ≤ 2 ^ 53 * (10000 * R.scaled 78 - A * 2 ^ 78) := by
+  intro R
+  have hof : ofInt A = { m := A, e := 0 } := ofInt_exact A hA
+  by_cases h0 : A = 0
+  · subst h0
+    have : R = { m := 0, e := 0 } := by
+      show divConst (ofInt 0) 10000 = _
+      rw [hof]; rfl
+    rw [this]
+    simp [Val.scaled]
+  · have hbl : bitLen 10000 = 14 := by decide
+    -- the scaled numerator and its quotient
+    generalize hk : bitLen ((A * 2 ^ 78).natAbs / 10000) - 53 = k
+    have hR : R = { m := rhe (A * 2 ^ 78) ((10000 : Int) * 2 ^ k), e := 0 - (78 : Nat) + k } := by
+      show divConst (ofInt A) 10000 = _
+      rw [hof]
+      unfold divConst
+      simp only [if_neg h0, hbl]
+      rw [show (64 + 14 : Nat) = 78 by rfl, hk]
+      rfl
+    have hscaled : R.scaled 78 = rhe (A * 2 ^ 78) ((10000 : Int) * 2 ^ k) * 2 ^ k := by
+      rw [hR]; unfold Val.scaled
+      simp only []
+      congr 2
+      omega
+    rw [hscaled]
+    have hP : (0 : Int) < 2 ^ k := Int.pow_pos (by omega)
+    have hp : (0 : Int) < 10000 * 2 ^ k := by omega
+    obtain ⟨r1, r2⟩ := rhe_err (A * 2 ^ 78) (10000 * 2 ^ k) hp
+    -- the quotient has at least 64 bits, so k ≥ 11 and 2^(52+k) ≤ q
+    have hApos : 1 ≤ A.natAbs := by omega
+    have hN : (A * 2 ^ 78).natAbs = A.natAbs * 2 ^ 78 := by
+      rw [Int.natAbs_mul]; rfl
+    have hq : 2 ^ 64 ≤ (A * 2 ^ 78).natAbs / 10000 := by
+      rw [hN, Nat.le_div_iff_mul_le (by omega)]
+      have : 2 ^ 64 * 10000 ≤ 1 * 2 ^ 78 := by decide
+      exact Nat.le_trans this (Nat.mul_le_mul_right _ hApos)
+    have hbq : 65 ≤ bitLen ((A * 2 ^ 78).natAbs / 10000) := by
+      apply Nat.le_of_not_lt
+      intro hlt
+      have : (A * 2 ^ 78).natAbs / 10000 < 2 ^ 64 := by
+        have h1 : bitLen ((A * 2 ^ 78).natAbs / 10000) ≤ 64 := by omega
+        unfold bitLen at h1
+        split at h1
+        · omega
+        · rename_i hne
+          exact (Nat.log2_lt hne).mp (by omega)
+      omega
+    have hlow := le_of_bitLen (a := (A * 2 ^ 78).natAbs / 10000) (by omega)
+    have hsplit : bitLen ((A * 2 ^ 78).natAbs / 10000) - 1 = 52 + k := by omega
+    rw [hsplit, Nat.pow_add] at hlow
+    have hqd := Nat.div_mul_le_self (A * 2 ^ 78).natAbs 10000
+    have hlow2 : 2 ^ 52 * 2 ^ k * 10000 ≤ (A * 2 ^ 78).natAbs := Nat.le_trans (Nat.mul_le_mul_right _ hlow) hqd
+    rw [hN] at hlow2
+    have hlow3 : (2 : Int) ^ 52 * 2 ^ k * 10000 ≤ (A.natAbs : Int) * 2 ^ 78 := by
+      have h' := Int.ofNat_le.mpr hlow2
+      simp only [Int.natCast_mul, Int.natCast_pow] at h'
+      exact h'
+    have hmul : rhe (A * 2 ^ 78) (10000 * 2 ^ k) * (10000 * 2 ^ k) = 10000 * (rhe (A * 2 ^ 78) (10000 * 2 ^ k) * 2 ^ k) := by
+      rw [← Int.mul_assoc, Int.mul_comm _ 10000, Int.mul_assoc]
+    rw [hmul] at r1 r2
+    generalize rhe (A * 2 ^ 78) (10000 * 2 ^ k) * 2 ^ k = XP at r1 r2 ⊢
+    generalize (2 : Int) ^ k = P at hP hp r1 r2 hlow3
+    constructor <;> omega
+
+end Ntrip.F64
